@@ -217,7 +217,8 @@ impl CommonInformationEntry {
         w.write_uleb128(self.code_alignment_factor.into())?;
         w.write_sleb128(self.data_alignment_factor.into())?;
 
-        if !eh_frame && encoding.version == 1 {
+        // Version 1 has a single byte register, in both `.debug_frame` and `.eh_frame`.
+        if encoding.version == 1 {
             let register = self.return_address_register.0 as u8;
             if u16::from(register) != self.return_address_register.0 {
                 return Err(Error::ValueTooLarge);
@@ -254,7 +255,7 @@ impl CommonInformationEntry {
 
         write_nop(
             w,
-            encoding.format.word_size() as usize + w.len() - length_base,
+            encoding.format.initial_length_size() as usize + w.len() - length_base,
             encoding.address_size,
         )?;
 
@@ -362,7 +363,7 @@ impl FrameDescriptionEntry {
 
         write_nop(
             w,
-            encoding.format.word_size() as usize + w.len() - length_base,
+            encoding.format.initial_length_size() as usize + w.len() - length_base,
             encoding.address_size,
         )?;
 
@@ -892,7 +893,9 @@ pub(crate) mod convert {
                 read::CallFrameInstruction::RememberState => CallFrameInstruction::RememberState,
                 read::CallFrameInstruction::RestoreState => CallFrameInstruction::RestoreState,
                 read::CallFrameInstruction::ArgsSize { size } => {
-                    CallFrameInstruction::ArgsSize(size as u32)
+                    CallFrameInstruction::ArgsSize(
+                        u32::try_from(size).map_err(|_| unsupported)?,
+                    )
                 }
                 read::CallFrameInstruction::NegateRaState => CallFrameInstruction::NegateRaState,
                 read::CallFrameInstruction::Nop => return Ok(None),
